@@ -97,6 +97,7 @@ type Alphabet struct {
 	Ranks                int
 	DelSigners, DelRanks int   // choices for the signer / date of delete claims (prefix)
 	valMap               []int // optional: which values the Vals indices stand for
+	Types                []int // optional: the attribute claim types used (default: all four)
 	MaxDel               int   // max number of delete claims in a case
 	MaxDepth             int   // max delete-chain depth
 	DenseDates           bool  // dates used must be an initial segment t1..tm
@@ -122,6 +123,15 @@ func Enumerate(al Alphabet, k int) []Case {
 	var shapes []Item
 	for s := 0; s < al.Signers; s++ {
 		for ty := 0; ty < 4; ty++ {
+			if al.Types != nil {
+				use := false
+				for _, t := range al.Types {
+					use = use || t == ty
+				}
+				if !use {
+					continue
+				}
+			}
 			for at := 0; at < al.Attrs; at++ {
 				if ty == 3 {
 					shapes = append(shapes, Item{Kind: 'A', Signer: s, Type: ty, Attr: at})
